@@ -23,9 +23,15 @@ def sep_string(rng) -> str:
     return "".join(parts)
 
 
+# long values of one length that differ in the middle only (an embedded text with one edited character)
+LONG_STRS = ["L" * 300 + "a" + "R" * 300, "L" * 300 + "b" + "R" * 300, "L" * 301 + "R" * 300]
+
+
 def gen_str(rng, hostile: float = 0.15) -> str:
     if rng.random() < hostile:
         return sep_string(rng)
+    if rng.random() < 0.04:
+        return rng.choice(LONG_STRS)
     if rng.random() < 0.12:
         return rng.choice(UNICODE_STRS)
     return rng.choice(PLAIN_STRS)
